@@ -31,7 +31,6 @@ import (
 	"fmt"
 	nurl "net/url"
 	"strconv"
-	"strings"
 
 	"github.com/markusmobius/go-domdistiller/internal/stringutil"
 )
@@ -120,7 +119,7 @@ func (pp *QueryParamPagePattern) IsValidFor(docURL *nurl.URL) bool {
 	docURLPath := rxTrailingSlashHTML.ReplaceAllString(docURL.Path, "")
 
 	return pp.url.Scheme == docURL.Scheme &&
-		strings.EqualFold(pp.url.Host, docURL.Host) &&
+		stringutil.ToLowerASCII(pp.url.Host) == stringutil.ToLowerASCII(docURL.Host) &&
 		urlPath == docURLPath
 }
 
@@ -140,7 +139,7 @@ func (pp *QueryParamPagePattern) IsPagingURL(url string) bool {
 	patternURLPath := rxTrailingSlashHTML.ReplaceAllString(pp.url.Path, "")
 	parsedURLPath := rxTrailingSlashHTML.ReplaceAllString(parsedURL.Path, "")
 	if pp.url.Scheme != parsedURL.Scheme ||
-		!strings.EqualFold(pp.url.Host, parsedURL.Host) ||
+		stringutil.ToLowerASCII(pp.url.Host) != stringutil.ToLowerASCII(parsedURL.Host) ||
 		patternURLPath != parsedURLPath {
 		return false
 	}
